@@ -3,6 +3,7 @@
 //   (0 nx dx x0 rot pol sel pts)                      -> (nrows ncols rows apex)  ProjMatrix on a MeshETurbo
 //   (1 ndim apices meshes pts)                        -> (nrows ncols rows)       ProjMatrix on a MeshEStandard
 //   (2 mesh cov v dest)                               -> (n S lambda coeffs free cs training Q diagfree diagcs ... addToDest of both forms)
+//   (15 mesh cov pts z nugget guess)                   -> every public solve entry point (SPDEOp / SPDEOpMatrix kriging[WithGuess], LinearOpCGSolver solve[WithGuess], evalInverse) on one system
 //   (13 mesh (cov ...) pts z vars ptsout)              -> conditional solves, one variance per datum, 1-2 structures, Cholesky / CG, API with locator V
 //   (11 meshA meshB ptsA ptsB nullflag v y d1 d2)     -> ProjMulti (2 x 2 blocks of ProjMatrix): blocks, mesh2point / point2mesh / add variants
 //   (5 nx dx x0 conv nodeRes gext v y dst)            -> ProjConvolution: shifts, resolution grid, mesh2point / point2mesh / add variants
@@ -20,6 +21,13 @@
 #include "LinearOp/ProjMatrix.hpp"
 #include "LinearOp/ProjConvolution.hpp"
 #include "LinearOp/ProjMulti.hpp"
+#include "LinearOp/ProjMultiMatrix.hpp"
+#include "LinearOp/PrecisionOpMulti.hpp"
+#include "LinearOp/PrecisionOpMultiMatrix.hpp"
+#include "LinearOp/SPDEOp.hpp"
+#include "LinearOp/SPDEOpMatrix.hpp"
+#include "LinearOp/MatrixSquareSymmetricSim.hpp"
+#include "LinearOp/LinearOpCGSolver.hpp"
 #include "LinearOp/ShiftOpCs.hpp"
 #include "LinearOp/PrecisionOp.hpp"
 #include "LinearOp/PrecisionOpCs.hpp"
@@ -155,6 +163,81 @@ static std::string run(const Sx& c) {
     ProjMatrix P(db, mesh);
     o << "(" << projOut(P) << ")";
     delete db; delete mesh;
+  } else if (kind == 15) {
+    // every public solve entry point on one kriging system: (15 mesh cov pts z nugget guesses)
+    //   -> (n ndat Q A-rows S lambda coeffs ((label solution) ...)); labels are character codes
+    AMesh* mesh = makeMesh(c[1]);
+    if (!mesh) return "(-997 2)";
+    int ndim = mesh->getNDim();
+    Model* model = makeModel(c[2], ndim);
+    double nug = c[5].d();
+    model->addCovFromParam(ECov::NUGGET, 0., nug);
+    VD z = c[4].vd();
+    int ndat = (int) z.size();
+    Db* dat = makeDb(c[3], ndim, &z);
+    ProjMatrix A(dat, mesh);
+    PrecisionOpCs Qc(mesh, model->getCova(0), false);
+    PrecisionOp Qf(mesh, model->getCova(0), false);
+    int n = Qc.getSize();
+    VectorMeshes meshes = { mesh };
+    auto AM = ProjMultiMatrix::createFromDbAndMeshes(dat, meshes);
+    MatrixSparse* invnoise = buildInvNugget(dat, model);
+    VectorDouble Z = dat->getColumnsActiveAndDefined(ELoc::Z);
+    std::vector<std::pair<std::string, VD>> res;
+    auto put = [&](const std::string& lab, const VectorDouble& v) { res.push_back({lab, deep(v)}); };
+    auto putv = [&](const std::string& lab, const std::vector<double>& v) { res.push_back({lab, VD(v.begin(), v.end())}); };
+    // matrix (Cholesky) operator
+    PrecisionOpMultiMatrix QopM(model, meshes);
+    SPDEOpMatrix opM(&QopM, &AM, invnoise);
+    VectorDouble xchol = opM.kriging(Z);
+    put("SPDEOpMatrix::kriging:VectorDouble", xchol);
+    { std::vector<double> o1(n); opM.kriging(constvect(Z.data(), Z.size()), vect(o1.data(), n)); putv("SPDEOpMatrix::kriging:span", o1); }
+    // matrix-free operator
+    PrecisionOpMulti QopF(model, meshes);
+    MatrixSquareSymmetricSim invnoisep(invnoise);
+    SPDEOp opF(&QopF, &AM, &invnoisep);
+    opF.setMaxIterations(2000); opF.setTolerance(1e-10);
+    opM.setMaxIterations(2000); opM.setTolerance(1e-10);
+    put("SPDEOp::kriging:VectorDouble", opF.kriging(Z));
+    { std::vector<double> o1(n); opF.kriging(constvect(Z.data(), Z.size()), vect(o1.data(), n)); putv("SPDEOp::kriging:span", o1); }
+    // guesses: zero, given (random), half the solution, the solution, constant
+    std::vector<std::pair<std::string, VectorDouble>> guesses;
+    VectorDouble g0(n, 0.), g1(n), g2(n), g3 = xchol, g4(n, 1.);
+    for (int i = 0; i < n; i++) { g1[i] = ((int) c[6].size() > 0) ? c[6][i % c[6].size()].d() : 0.5; g2[i] = 0.5 * xchol[i]; }
+    guesses = { {"zero", g0}, {"random", g1}, {"half", g2}, {"exact", g3}, {"constant", g4} };
+    // right-hand side of the system, for the solver called directly
+    std::vector<double> rhs(n, 0.);
+    { std::vector<double> w(ndat); for (int k = 0; k < ndat; k++) w[k] = z[k] / nug; A.point2mesh(constvect(w.data(), ndat), vect(rhs.data(), n)); }
+    LinearOpCGSolver<SPDEOp> solver(&opF);
+    solver.setMaxIterations(2000); solver.setTolerance(1e-10);
+    { VectorDouble r(rhs.size()), o1(n); for (int i = 0; i < n; i++) r[i] = rhs[i]; solver.solve(r, o1); put("LinearOpCGSolver::solve:VectorDouble", o1); }
+    { std::vector<double> o1(n); solver.solve(constvect(rhs.data(), n), vect(o1.data(), n)); putv("LinearOpCGSolver::solve:span", o1); }
+    { std::vector<double> o1(n); Eigen::Map<const Eigen::VectorXd> rm(rhs.data(), n); Eigen::Map<Eigen::VectorXd> om(o1.data(), n); solver.solve(rm, om); putv("LinearOpCGSolver::solve:EigenMap", o1); }
+    for (auto& g : guesses) {
+      put("SPDEOp::krigingWithGuess:VectorDouble:" + g.first, opF.krigingWithGuess(Z, g.second));
+      { std::vector<double> o1(n); opF.krigingWithGuess(constvect(Z.data(), Z.size()), constvect(g.second.data(), n), vect(o1.data(), n)); putv("SPDEOp::krigingWithGuess:span:" + g.first, o1); }
+      put("SPDEOpMatrix::krigingWithGuess:VectorDouble:" + g.first, opM.krigingWithGuess(Z, g.second));
+      { std::vector<double> o1(n); solver.solveWithGuess(constvect(rhs.data(), n), constvect(g.second.data(), n), vect(o1.data(), n)); putv("LinearOpCGSolver::solveWithGuess:span:" + g.first, o1); }
+      { std::vector<double> o1(n); Eigen::Map<const Eigen::VectorXd> rm(rhs.data(), n), gm(g.second.data(), n); Eigen::Map<Eigen::VectorXd> om(o1.data(), n);
+        solver.solveWithGuess(rm, gm, om); putv("LinearOpCGSolver::solveWithGuess:EigenMap:" + g.first, o1); }
+      // the hand-written conjugate gradient of ALinearOpMulti with a user initial value
+      { PrecisionOpMultiConditional Mf; Mf.push_back(&Qf, &A); Mf.setVarianceData(nug); Mf.setUserInitialValue(true); Mf.setNIterMax(2000); Mf.setEps(1e-14);
+        std::vector<std::vector<double>> b(1, rhs), x(1, std::vector<double>(g.second.getVector().begin(), g.second.getVector().end()));
+        Mf.evalInverse(b, x); putv("PrecisionOpMultiConditional::evalInverse:userInitialValue:" + g.first, x[0]); }
+    }
+    { PrecisionOpMultiConditional Mf; Mf.push_back(&Qf, &A); Mf.setVarianceData(nug); Mf.setNIterMax(2000); Mf.setEps(1e-14);
+      std::vector<std::vector<double>> b(1, rhs), x(1, std::vector<double>(n)); Mf.evalInverse(b, x); putv("PrecisionOpMultiConditional::evalInverse:cold", x[0]); }
+    { PrecisionOpMultiConditionalCs Mc; Mc.push_back(&Qc, &A); Mc.setVarianceData(nug); Mc.makeReady();
+      std::vector<std::vector<double>> b(1, rhs), x(1, std::vector<double>(n)); Mc.evalInverse(b, x); putv("PrecisionOpMultiConditionalCs::evalInverse", x[0]); }
+    o << "(" << n << " " << ndat << " " << denseOut(Qc.getQ()) << " (" << projOut(A) << ") " << denseOut(Qc.getShiftOp()->getS())
+      << " " << sx_vd(deep(Qc.getShiftOp()->getLambdas())) << " " << sx_vd(deep(Qc.getCoeffs())) << " (";
+    for (size_t k = 0; k < res.size(); k++) {
+      o << (k ? " " : "") << "((";
+      for (size_t t = 0; t < res[k].first.size(); t++) o << (t ? " " : "") << (int) res[k].first[t];
+      o << ") " << sx_vd(res[k].second) << ")";
+    }
+    o << "))";
+    delete invnoise; delete dat; delete model; delete mesh;
   } else if (kind == 13) {
     // conditional solves with one variance per datum and one or two structures on the same meshing:
     // (13 mesh (cov ...) pts z vars ptsout)
